@@ -111,14 +111,6 @@ def opTextParse (j : Json) : M Json := do
                     (jCO (directCuesOutcomesWith intOf content)))
   | .error _ => pure parsed
 
-/-- op text_count: `cues_outcomes(path, n_jobs=)` and the direct count -/
-def opTextCount (j : Json) : M Json := do
-  let content ← getContent j
-  let n ← getNat j "n_jobs"
-  let intOf ← getIntOf j
-  pure (Json.mkObj [("strided", jCO (cuesOutcomesWith intOf n content)),
-                    ("direct", jCO (directCuesOutcomesWith intOf content))])
-
 def jWS : Option WS → Json
   | none => Json.mkObj [("err", Json.str "missing_lower")]
   | some r => Json.mkObj [("words", jCounter r.words), ("symbols", jCounter r.symbols)]
@@ -156,7 +148,6 @@ def handleText? (op : String) (j : Json) : Option (M Json) :=
   match op with
   | "text_roundtrip" => some (opTextRoundtrip j)
   | "text_parse" => some (opTextParse j)
-  | "text_count" => some (opTextCount j)
   | "text_words" => some (opTextWords j)
   | _ => none
 
